@@ -423,3 +423,62 @@ func init() {
 		runAccumRule(c, "X.accum", func(fn *ssa.Function) bool { return inModule(fn) })
 	}})
 }
+
+func init() {
+	register(&Property{ID: "X-condadvance", NeedSSA: true, Decided: "dump", NotDecided: "-", Run: func(c *Ctx) {
+		p := c.P
+		for _, fn := range p.ModuleSSAFuncs() {
+			if fn.Origin() != nil || fn.Blocks == nil || fnPkgPath(fn) != modPath {
+				continue
+			}
+			for _, b := range fn.Blocks {
+				for _, ins := range b.Instrs {
+					phi, ok := ins.(*ssa.Phi)
+					if !ok || !isNumericBasic(phi.Type()) {
+						continue
+					}
+					// loop header phi: some edge comes from a block the header dominates
+					for i, e := range phi.Edges {
+						if !b.Dominates(b.Preds[i]) {
+							continue
+						}
+						// back-edge value: unchanged on some path?
+						unchanged := false
+						updated := false
+						var walk func(v ssa.Value, seen map[ssa.Value]bool)
+						walk = func(v ssa.Value, seen map[ssa.Value]bool) {
+							if seen[v] {
+								return
+							}
+							seen[v] = true
+							if v == ssa.Value(phi) {
+								unchanged = true
+								return
+							}
+							if ph, ok := v.(*ssa.Phi); ok && ph.Block() != b {
+								for _, e2 := range ph.Edges {
+									walk(e2, seen)
+								}
+								return
+							}
+							if bo, ok := v.(*ssa.BinOp); ok && derivesFromValue(bo, phi, map[ssa.Value]bool{}) {
+								// adds a call result?
+								for _, side := range []ssa.Value{bo.X, bo.Y} {
+									for _, o := range Origins(side, OriginOpts{}) {
+										if o.Kind == OrgCall {
+											updated = true
+										}
+									}
+								}
+							}
+						}
+						walk(e, map[ssa.Value]bool{})
+						if unchanged && updated {
+							c.Note("%s: %s at %s conditionally advanced", FuncKey(fn), phi.Comment, p.Pos(phi.Pos()))
+						}
+					}
+				}
+			}
+		}
+	}})
+}
